@@ -75,9 +75,14 @@ def global_state_guard():
     import labrea.overload as lov
 
     nlocks = set(lov._LOCKS)
+    entered = getattr(lrt, "_ENTERED", None)
+    entered_snap = {k: list(v) for k, v in entered.items()} if entered is not None else None
     try:
         yield
     finally:
+        if entered is not None:
+            entered.clear()
+            entered.update(entered_snap)
         lrt._RUNTIMES.clear()
         lrt._RUNTIMES.update(runtimes)
         lrt._DEFAULT_HANDLERS.clear()
